@@ -88,10 +88,20 @@ fn gen_tx(rng: &mut Rng, cfg: &Cfg) -> Tx {
             break;
         }
     }
-    // a zero before our flags so that trailing ones of the noise cannot extend into them
-    bits.push(0);
-    for _ in 0..rng.range(2, 4) {
-        bits.extend(FLAG);
+    if rng.chance(1, 4) {
+        // An idle (mark) line instead of noise: 0..16 one-bits and then the opening
+        // flag(s) directly; a single opening flag is enough. Nothing can be framed
+        // inside it (there is no flag before the first one).
+        bits = vec![1u8; rng.range(0, 16)];
+        for _ in 0..rng.range(1, 3) {
+            bits.extend(FLAG);
+        }
+    } else {
+        // a zero before our flags so that trailing ones of the noise cannot extend into them
+        bits.push(0);
+        for _ in 0..rng.range(2, 4) {
+            bits.extend(FLAG);
+        }
     }
     let nframes = rng.range(1, 8);
     let mut expected = Vec::new();
@@ -284,7 +294,7 @@ fn justified(p: &[u8], raw: &[(Vec<u8>, usize)], fix: bool) -> bool {
 
 pub fn main(opts: &Opts) -> Report {
     let mut rep = Report::new("C13");
-    rep.rule = "clean part: generated bit streams (noise preamble re-drawn until the harness's own reference deframer finds nothing valid in it; 2+ flags; 1-8 frames with payload lengths around 0,1,2,min,max and random, random and stuffing-heavy contents, shared or separate flags) from an independent transmitter model (bitwise CRC-16/X.25, LSB-first, zero insertion) x (min,max) settings incl. 0,1,2 x checksum on/off x fix-bits on/off, delivered one-shot and under drip-feed chunking: the packets must be exactly the frames with min <= L < max (L = max accepted either way), once, in order. Corrupted part: every single-bit flip position of a framed packet and sampled double flips: no panic, and every emitted packet is the original payload or is justified by a raw frame on the corrupted line whose CRC verifies (or is one repaired bit away with fix-bits). distinct = (settings, frame length pattern) for clean, flip position for corrupted".into();
+    rep.rule = "clean part: generated bit streams (noise preamble re-drawn until the harness's own reference deframer finds nothing valid in it and 2+ flags, or an idle line of 0-16 one-bits and 1+ flags; 1-8 frames with payload lengths around 0,1,2,min,max and random, random and stuffing-heavy contents, shared or separate flags) from an independent transmitter model (bitwise CRC-16/X.25, LSB-first, zero insertion) x (min,max) settings incl. 0,1,2 x checksum on/off x fix-bits on/off, delivered one-shot and under drip-feed chunking: the packets must be exactly the frames with min <= L < max (L = max accepted either way), once, in order. Corrupted part: every single-bit flip position of a framed packet and sampled double flips: no panic, and every emitted packet is the original payload or is justified by a raw frame on the corrupted line whose CRC verifies (or is one repaired bit away with fix-bits). distinct = (settings, frame length pattern) for clean, flip position for corrupted".into();
     rep.assume("two flags sharing their boundary zero (011111101111110) are not generated as a separator: the block's documentation does not promise that form");
     rec::install(true);
     let mut rng = Rng::new(opts.shard_seed() ^ 0xC13);
